@@ -12,6 +12,7 @@ CONSTANTS ND,         \* documents alive in the process (1 or 2)
           Apis, HLvls, HTexts, Styles,           \* heading constructors
           MLs,                                   \* TOC levels
           TSLvls,                                \* SetTOCStyle levels
+          Files,                                 \* Reopen through ToBytes/OpenFromMemory (FALSE) or Save/Open of a file (TRUE)
           MaxK,                                  \* largest index offered to the removal operations
           Depth,                                 \* behaviour length for generation
           MaxItems, MaxNotes, MaxHeads, MaxTocs, MaxAlloc   \* bounds of the exhaustive exploration
@@ -70,7 +71,8 @@ OpsFor(s, d) ==
   \cup (IF Has("SetTOCStyle") THEN {[op |-> "SetTOCStyle", d |-> d, lvl |-> l] : l \in TSLvls} ELSE {})
   \cup (IF Has("BuildTOCSDT") THEN {[op |-> "BuildTOCSDT", d |-> d]} ELSE {})
   \* a reopen in a NEW process is only meaningful while no other document of this process is in use
-  \cup (IF Has("Reopen") THEN {[op |-> "Reopen", d |-> d, fresh |-> f] : f \in {FALSE} \cup (IF ND = 1 \/ ~s.touched[Other(d)] THEN {TRUE} ELSE {})} ELSE {})
+  \cup (IF Has("Reopen") THEN {[op |-> "Reopen", d |-> d, fresh |-> f, file |-> g] :
+                                     f \in {FALSE} \cup (IF ND = 1 \/ ~s.touched[Other(d)] THEN {TRUE} ELSE {}), g \in Files} ELSE {})
 
 OpsOf(s) == UNION {OpsFor(s, d) : d \in 1..ND}
 
@@ -145,7 +147,9 @@ FamOf(op) ==
 Act_Frame ==
   [][LET op == hist'[1] IN
           /\ \A d \in 1..ND : d # op.d => st'.docs[d] = st.docs[d]
-          /\ \A f \in {"lists", "notes", "toc"} : f # FamOf(op) => Fam(st'.docs[op.d])[f] = Fam(st.docs[op.d])[f]
+          /\ \A f \in {"lists", "notes", "toc"} :
+               (f # FamOf(op) /\ ~(f = "toc" /\ op.op = "AddFootnoteToRun" /\ op.run = "heading")) =>
+                  Fam(st'.docs[op.d])[f] = Fam(st.docs[op.d])[f]
           /\ op.op \in ListOps => IsPrefix(st.docs[op.d].items, st'.docs[op.d].items)]_vars
 
 \* ---- generation: print each complete behaviour once ----------------------------------
